@@ -783,6 +783,13 @@ def _strategies() -> T.Any:
                 v: T.Any = draw(st.sampled_from(['plain', 'debug', 'debugoptimized', 'release', 'minsize']))
             else:
                 v = value_for(draw, d)
+                if m.state == 'configured' and chance(draw, 1, 4):
+                    # re-state the value the option has right now: "the last one the user gave it" must be recorded
+                    # even though nothing changes at this moment
+                    try:
+                        v = m.eff(k)
+                    except Exception:
+                        pass
             out.append([k, R.to_cmdline(v)])
         return out
 
@@ -906,11 +913,10 @@ def _strategies() -> T.Any:
         m = LifeModel(init)
         n = draw(st.integers(3, 10))
         ops = []
-        for _ in range(n):
-            op = gen_op(draw, m)
+        def push(op: dict) -> None:
             ops.append(op)
             if excluded(m, op) is not None:
-                continue
+                return
             if op['op'] == 'edit':
                 apply_edit(m, op)
             elif op['op'] != 'introspect':
@@ -918,6 +924,30 @@ def _strategies() -> T.Any:
                     predict(m, op)
                 except Undefined:
                     ops.pop()
+
+        for _ in range(n):
+            push(gen_op(draw, m))
+        if m.state == 'configured' and chance(draw, 1, 4):
+            # scripted tail: the user re-states the current value of an option, the project later changes that option's
+            # default, then the directory is wiped: the value the user gave must survive (it has to be in the recorded
+            # command line although the configure changed nothing)
+            names = sorted(n_ for n_ in m.file['top'] if n_ not in YIELD_PAIR_NAMES and m.file['top'][n_]['type'] in ('string', 'combo', 'integer', 'boolean'))
+            if names:
+                k = draw(st.sampled_from(names))
+                try:
+                    cur = m.eff(k)
+                except Exception:
+                    cur = None
+                if cur is not None:
+                    push({'op': 'configure', 'D': [[k, R.to_cmdline(cur)]]})
+                    d = copy.deepcopy(m.file['top'][k])
+                    for _try in range(4):
+                        nv = value_for(draw, d)
+                        if nv != cur:
+                            break
+                    d['value'] = nv
+                    push({'op': 'edit', 'proj': 'top', 'kind': 'default', 'name': k, 'decl': d})
+                    push({'op': 'wipe'})
         return {'init': init, 'ops': ops, 'strict': True}
 
     return histories()
